@@ -14,6 +14,9 @@
           names and sids are numbers; (m (<sid> n1 n2 ..)) lists the names segment sid matches
           -> impl: <p> .. ; spec: <p> .. ; stack: <p> .. | FUEL     p = names joined by /
              (expand = the proved denotation, spec_expand = declarative, expand_stack = the loop as written, 3000 iterations)
+     (text <pc 0|1> <p> <hex|-> ...)   text_multi: the content rows of read_text over the files (bytes as hex, - = empty)
+          under p partitions, in partition order  -> x<hex> x<hex> .. | N N ..   (N: content not projected)
+     (textgrow <hex|-> ...)            the grow-only buffer variant (refuted), one queue
      (deal <p> <n>)   -> deal p k [0..n-1] for k = 0..p-1, then deal_mod:   0,4|1,5|2|3 ; 0,4|1,5|2|3 *)
 
 let atom = function A s -> s | L _ -> failwith "atom expected"
@@ -109,6 +112,13 @@ let run_line (line : string) =
     Printf.printf "impl: %s ; spec: %s ; stack: %s\n"
       (String.concat " " (List.map show_path (expand m tree segs)))
       (String.concat " " (List.map show_path (spec_expand m tree segs))) stack
+  | L (A "text" :: A pc :: A p :: files) ->
+    let fs = List.map (fun x -> let h = atom x in if h = "-" then [] else bytes_of_hex h) files in
+    let out = text_multi (pc = "1") (nat_of_int (int_of_string p)) fs in
+    print_endline (String.concat " " (List.map (function None -> "N" | Some b -> "x" ^ hex_of_bytes b) out))
+  | L (A "textgrow" :: files) ->
+    let fs = List.map (fun x -> let h = atom x in if h = "-" then [] else bytes_of_hex h) files in
+    print_endline (String.concat " " (List.map (function None -> "N" | Some b -> "x" ^ hex_of_bytes b) (text_reader_grow [] fs)))
   | L [A "deal"; A p; A n] ->
     let p = int_of_string p and n = int_of_string n in
     let l = List.init n (fun i -> i) in
